@@ -11,6 +11,7 @@ import os
 import shutil
 
 import hsreplay
+import hsreplay13
 import scen
 import vlib
 
@@ -79,6 +80,23 @@ def run(chk):
                                    "script": {"scen": sc, "steps": nb[r["script"]]["steps"], "cap": 2, "bkcap": 0}})
             chk.parts["replay.full12-nobackoff"] = {"scripts": summ["scripts"]}
         chk.sample({"variant": variant, "script": [(x["act"], x["arg"]) for x in scripts[len(scripts) // 2]["steps"]]})
+    # DTLS 1.3: spec/Handshake13.tla (TimerLaw13, NoTimerHRR, AckNeverOnTimer, FinalFlightOnlyOnPeerRetx13) and its edge scripts
+    for variant in ("hrr", "nohrr"):
+        res = vlib.tlc_check("Handshake13", "Handshake13.%s.safe.%s.cfg" % (variant, t), timeout=2400)
+        chk.add_tlc("safe13." + variant, res)
+        scripts13 = hsreplay13.generate(chk, variant)
+        for extra, tag in (({}, ""), ({"noBackoff": True}, "-nobackoff")):
+            share = scripts13 if not extra else scripts13[chk.seed % 4::4]
+            rows, summ, sc = hsreplay13.replay(chk, binary, variant, share, extra_scen=extra, tag=tag)
+            nlaw = 0
+            for r in rows:
+                for v in [x for x in r.get("law", []) if "C17" in x][:1]:
+                    nlaw += 1
+                    chk.violation({"kind": "timer-law-13", "variant": variant + tag, "what": v,
+                                   "script13": {"scen": sc, "steps": share[r["script"]]["steps"], "cap": 2, "bkcap": 3}})
+                if r.get("diverge") and not r.get("law") and not extra:
+                    chk.note("DIVERGENCE model/code (1.3 %s script %d): %s" % (variant, r["script"], r["diverge"][0]))
+            chk.parts["replay13." + variant + tag] = {"scripts": summ["scripts"], "law_violations": nlaw, "diverged": summ.get("diverged", 0)}
     # (B ii) the timer function in-package
     hb = vlib.build("handshake")
     wd = vlib.scratch("c17")
@@ -125,6 +143,20 @@ def run(chk):
 def replay(chk, path):
     facts = json.load(open(path))
     binary = vlib.build("root")
+    if "script13" in facts:
+        wd = vlib.scratch("c17r")
+        try:
+            inp, out = os.path.join(wd, "in"), os.path.join(wd, "out")
+            open(inp, "w").write(json.dumps(facts["script13"]) + "\n")
+            vlib.run_test(binary, "TestVerifHs13Scripts", {"VERIF_IN": inp, "VERIF_OUT": out})
+            chk.evaluated(key="replay13")
+            chk.evaluated(key="replay")
+            for r in vlib.read_ndjson(out)[:-1]:
+                if any("C17" in x for x in r.get("law", [])):
+                    chk.violation(dict(facts, replayed=True), replay=path)
+        finally:
+            shutil.rmtree(wd, ignore_errors=True)
+        return
     if "script" in facts:
         wd = vlib.scratch("c17r")
         try:
